@@ -151,6 +151,9 @@ TEMPLATES = {
     "two_events_sep4": ["data:", "P1", "S4", "data:x", "S2"],
     # the same with pure terminator characters (T = LF or CR) and fixed payloads: cheap enough for the quick tier
     "two_events_term4": ["data:x", "T4", "data:x", "T2"],
+    # one event with two data lines: the terminator between them (LF, CR, CRLF, or a blank line) and the closing run are
+    # pure terminator characters, so a split between the CR and the LF of one line break inside an event is reached
+    "two_data_term": ["data:x", "T2", "data:y", "T3"],
 }
 TERM = ranges_of_pts([10, 13])
 
@@ -418,6 +421,8 @@ def specs(tier):
             out.append((MOD, "mk_chunk", ("sse", shape, 0, 1)))
         out.append((MOD, "mk_chunk", ("sse_text", "two_events_term4", 0, 1)))
         out.append((MOD, "mk_chunk", ("sse", "two_events_term4", 0, 1)))
+        out.append((MOD, "mk_chunk", ("sse_text", "two_data_term", 0, 1)))
+        out.append((MOD, "mk_chunk", ("sse", "two_data_term", 0, 1)))
         for shape in ("one_event", "two_lines", "unterminated", "trailing_empty_data"):
             out.append((MOD, "mk_ref", (shape, 1)))
         out.append((MOD, "mk_ndref", ("three_records", 1)))
